@@ -224,6 +224,9 @@ func runMutants(vd, repo, prop string, par int) ([]mutantResult, error) {
 			r.Expect = j.m.Expect
 			r.KnownGap = j.m.KnownGap
 			out[i] = r
+			if os.Getenv("ANNVERIF_PROGRESS") != "" {
+				fmt.Fprintf(os.Stderr, "[%d/%d] %s %s %s\n", i+1, len(jobs), r.ID, r.Property, r.verdict())
+			}
 		}(i, j)
 	}
 	wg.Wait()
